@@ -48,27 +48,58 @@ theorem readUntil_exact (pat : Bytes) : ∀ (pre rest : Bytes),
     simp only [List.cons_append, readUntil, h0, Bool.false_eq_true, if_false]
     rw [ih rest (fun i hi => by have := h (i + 1) (by simp; omega); simpa using this)]
 
+/-- no other file part of that name (in `rest`) -/
+def NoFileNamed (name : Bytes) (rest : List Part) : Prop := ∀ p ∈ rest, sameFile name p = false
+
+@[simp] theorem sameFile_file (name : Bytes) (f : FileV) : sameFile name (.file name f) = true := by simp [sameFile]
+@[simp] theorem sameFile_text (name m t : Bytes) : sameFile name (.text m t) = false := rfl
+
+theorem filter_none {name : Bytes} {rest : List Part} (h : NoFileNamed name rest) :
+    rest.reverse.filter (sameFile name) = [] ∧ rest.reverse.filter (fun p => !sameFile name p) = rest.reverse := by
+  constructor
+  · rw [List.filter_eq_nil_iff]; intro p hp; simp [h p (List.mem_reverse.mp hp)]
+  · rw [List.filter_eq_self]; intro p hp; simp [h p (List.mem_reverse.mp hp)]
+
 /-- the unselected file input (no filename, no content) is "no file": alone under its name it yields no file — `Option<File>` is `None`, `Vec<File>` is empty,
 `File` is a shape mismatch -/
-theorem empty_file_input (name mt m t : Bytes) (rest : List Part) :
+theorem empty_file_input (name mt m t : Bytes) (rest : List Part) (hr : NoFileNamed name rest) :
     next (rest ++ [.text m t, .file name ⟨[], mt, []⟩]) = some (name, .files [], rest ++ [.text m t]) ∧ next [.file name ⟨[], mt, []⟩] = some (name, .files [], []) ∧
     decodeField .optFile (.files []) = some .none ∧ decodeField .files (.files []) = some (.seq []) ∧ decodeField .file (.files []) = none := by
+  obtain ⟨h1, h2⟩ := filter_none hr
   refine ⟨?_, ?_, rfl, rfl, rfl⟩
-  · simp [next, unselected]
-  · simp [next, unselected]
+  · simp [next, unselected, List.filter_cons, h1, h2, fileOf]
+  · simp [next, unselected, fileOf]
 
 /-- ... and among the files of its name it is no file either, wherever it stands (two inputs of one name of which one was left empty, in either order;
 before fix fix 6d7aeee `[unselected, file]` yielded a phantom empty file and `[file, unselected]` made the whole form an error) -/
-theorem unselected_among_files (name mt m t : Bytes) (f : FileV) (hf : unselected f = false) (rest : List Part) :
+theorem unselected_among_files (name mt m t : Bytes) (f : FileV) (hf : unselected f = false) (rest : List Part) (hr : NoFileNamed name rest) :
     next (rest ++ [.text m t, .file name ⟨[], mt, []⟩, .file name f]) = some (name, .files [f], rest ++ [.text m t]) ∧
     next (rest ++ [.text m t, .file name f, .file name ⟨[], mt, []⟩]) = some (name, .files [f], rest ++ [.text m t]) ∧
     decodeField .files (.files [f]) = some (.seq [f]) ∧ decodeField .optFile (.files [f]) = some (.some (.file f)) := by
+  obtain ⟨h1, h2⟩ := filter_none hr
   have hf' : (!f.filename.isEmpty || !f.content.isEmpty) = true := by
     simp only [unselected] at hf
     cases h1 : f.filename.isEmpty <;> cases h2 : f.content.isEmpty <;> simp_all
   refine ⟨?_, ?_, rfl, rfl⟩
-  · simp [next, unselected, List.filter, hf']
-  · simp [next, unselected, List.filter, hf']
+  · simp [next, unselected, List.filter_cons, hf', h1, h2, fileOf]
+  · simp [next, unselected, List.filter_cons, hf', h1, h2, fileOf]
+
+/-- **Several files under one name, adjacent or not, in submission order**: two files of one name with another field between them are one group, and
+`Vec<File>` receives them in the order they were submitted (before the fix the group ended at the first part of another name and the second file of the
+name made the form an error, "duplicate field") -/
+theorem files_need_not_be_adjacent (name m t : Bytes) (f g : FileV) (hf : unselected f = false) (hg : unselected g = false) (rest : List Part)
+    (hr : NoFileNamed name rest) :
+    next (rest ++ [.file name f, .text m t, .file name g]) = some (name, .files [g, f], rest ++ [.text m t]) ∧
+    decodeField .files (.files [g, f]) = some (.seq [f, g]) := by
+  obtain ⟨h1, h2⟩ := filter_none hr
+  have hf' : (!f.filename.isEmpty || !f.content.isEmpty) = true := by
+    simp only [unselected] at hf
+    cases h1 : f.filename.isEmpty <;> cases h2 : f.content.isEmpty <;> simp_all
+  have hg' : (!g.filename.isEmpty || !g.content.isEmpty) = true := by
+    simp only [unselected] at hg
+    cases h1 : g.filename.isEmpty <;> cases h2 : g.content.isEmpty <;> simp_all
+  refine ⟨?_, rfl⟩
+  simp [next, unselected, List.filter_cons, hf', hg', h1, h2, fileOf]
 
 /-- a shape mismatch is an error, never a wrong value: two files never fit a single `File` or `Option<File>` field, text never fits a file field, a file never fits a text field -/
 theorem shape_mismatch (f g : FileV) (l : List FileV) (t : Bytes) :
@@ -116,7 +147,7 @@ structure PartOK (delim : Bytes) (p : Part) : Prop where
   name : ∀ b ∈ (match p with | .text n _ => n | .file n _ => n), b ≠ DQ
   name_utf8 : Http.validUtf8 (match p with | .text n _ => n | .file n _ => n) = true
   file : ∀ n f, p = .file n f → (∀ b ∈ f.filename, b ≠ DQ) ∧ Http.validUtf8 f.filename = true ∧ Http.validUtf8 f.mimetype = true ∧
-      (f.mimetype == ascii "multipart/mixed") = false ∧ (∀ b ∈ f.mimetype, b ≠ CR)
+      (f.mimetype == ascii "multipart/mixed") = false ∧ (∀ b ∈ f.mimetype, b ≠ CR) ∧ f.mimetype ≠ []
   text_utf8 : ∀ n t, p = .text n t → Http.validUtf8 t = true
 
 theorem headers_text (n rest : Bytes) (fuel : Nat) (hn : ∀ b ∈ n, b ≠ DQ) (hu : Http.validUtf8 n = true) :
@@ -242,7 +273,7 @@ theorem headers_part (delim : Bytes) (p : Part) (hp : PartOK delim p) (rest : By
     have := headers_text n rest (k + 1) hp.name hp.name_utf8
     simpa [headerBlock] using this
   | file n f =>
-    obtain ⟨h1, h2, h3, h4, h5⟩ := hp.file n f rfl
+    obtain ⟨h1, h2, h3, h4, h5, _⟩ := hp.file n f rfl
     exact ⟨_, headers_file n rest f k hp.name hp.name_utf8 h1 h2 h3 h4 h5, rfl, rfl, rfl⟩
 
 theorem headerBlock_length (p : Part) : 2 ≤ (headerBlock p).length := by
@@ -288,7 +319,12 @@ theorem parts_tail (delim : Bytes) : ∀ (form : List Part) (acc : List Part) (f
         simp
       | file n fv =>
         simp only at hkind hname
-        simp only [hkind.1, hkind.2, content, hname]
+        have hmt : fv.mimetype.isEmpty = false := by
+          have := (hp.file n fv rfl).2.2.2.2.2
+          cases h : fv.mimetype with
+          | nil => exact absurd h this
+          | cons a b => rfl
+        simp only [hkind.1, hkind.2, content, hname, hmt, Bool.false_eq_true, if_false]
         rw [ih _ f hrest (by simp at hf; omega)]
         simp
 
@@ -345,5 +381,6 @@ example : FormOK dX form2 := by
   · intro n t h; cases h; decide
   · intro n f h; cases h; decide
   · intro n t h; cases h
+
 
 end Ohkami.Multipart
